@@ -14,6 +14,7 @@ RULE = ("case = (N atoms in 3..64 or 1000-4000 covering every N mod 4, 2-5 frame
         "(none, equal, different, permuted), parallel, precentered); oracle = float64 Kabsch (SVD with determinant correction); "
         "laws: self-RMSD ~ 0, symmetry, invariance under a rigid motion, parallel == serial bit-for-bit, superpose is rigid and proper "
         "and its unfitted RMSD equals the minimum; non-trivial = N%4!=0 or mirror or offset>50nm or different selections")
+RULE += ('; widened: exact symmetric / degenerate point sets, small rotations, unsorted selections, frames edited in place and centred again before a precentered call')
 QUICK = {"examples": 300, "shards": 12, "budget_s": 100}
 THOROUGH = {"examples": 8000, "shards": 16, "budget_s": 1500}
 ASSUMPTIONS = ["tolerance: |rmsd - r*| <= min(sqrt(c*eps*S), c*eps*S/(2 r*)) + 8*eps*|x|max with S=(Ga+Gb)/N, c=256 (QCP error is absolute in "
